@@ -15,7 +15,9 @@ def stochastic_reconfiguration_np(walkers, weights, zeta):
     weights_new = np.ones(nwalkers) * average_weight
     for i in range(nwalkers):
         z = (i + zeta) / nwalkers
-        new_i = np.searchsorted(cumulative_weights, z * total_weight)
+        new_i = np.searchsorted(
+            cumulative_weights, min(z * total_weight, total_weight)
+        )
         walkers_new[i] = walkers[new_i].copy()
     return jnp.array(walkers_new), jnp.array(weights_new)
 
@@ -29,6 +31,7 @@ def stochastic_reconfiguration(walkers, weights, zeta):
     average_weight = total_weight / nwalkers
     weights = jnp.ones(nwalkers) * average_weight
     z = total_weight * (jnp.arange(nwalkers) + zeta) / nwalkers
+    z = jnp.minimum(z, total_weight)
     indices = vmap(jnp.searchsorted, in_axes=(None, 0))(cumulative_weights, z)
     walkers = walkers[indices]
     return walkers, weights
@@ -42,6 +45,7 @@ def stochastic_reconfiguration_uhf(walkers, weights, zeta):
     average_weight = total_weight / nwalkers
     weights = jnp.ones(nwalkers) * average_weight
     z = total_weight * (jnp.arange(nwalkers) + zeta) / nwalkers
+    z = jnp.minimum(z, total_weight)
     indices = vmap(jnp.searchsorted, in_axes=(None, 0))(cumulative_weights, z)
     walkers[0] = walkers[0][indices]
     walkers[1] = walkers[1][indices]
@@ -84,7 +88,9 @@ def stochastic_reconfiguration_mpi(walkers, weights, zeta, comm):
         )
         for i in range(nwalkers * size):
             z = (i + zeta) / nwalkers / size
-            new_i = np.searchsorted(cumulative_weights, z * total_weight)
+            new_i = np.searchsorted(
+                cumulative_weights, min(z * total_weight, total_weight)
+            )
             global_buffer_walkers_new[i] = global_buffer_walkers[new_i].copy()
 
     comm.Scatter(global_buffer_walkers_new, walkers_new, root=0)
@@ -142,7 +148,9 @@ def stochastic_reconfiguration_mpi_uhf(walkers, weights, zeta, comm):
         )
         for i in range(nwalkers * size):
             z = (i + zeta) / nwalkers / size
-            new_i = np.searchsorted(cumulative_weights, z * total_weight)
+            new_i = np.searchsorted(
+                cumulative_weights, min(z * total_weight, total_weight)
+            )
             global_buffer_walkers_new_up[i] = global_buffer_walkers_up[new_i].copy()
             global_buffer_walkers_new_dn[i] = global_buffer_walkers_dn[new_i].copy()
 
